@@ -124,7 +124,8 @@ theorem linv_run : ∀ (acts : List LAct) (s s' : LSt), LInv s → lrun s acts =
 structure CInv (s : CSt) : Prop where
   swapCtx : s.swapped = true → s.ctxDone = true
   doneSwapped : s.closeAllDone = true → s.swapped = true
-  loopIn : (s.pc = .loopTop ∨ s.pc = .reading) → s.loc ≠ .notIn
+  loopIn : (s.pc = .activating ∨ s.pc = .loopTop ∨ s.pc = .reading) → s.loc ≠ .notIn
+  activatingCur : s.pc = .activating → s.loc = .cur → s.swapped = false
   earlyOut : (s.pc = .none ∨ s.pc = .accepted ∨ s.pc = .started) → s.loc = .notIn
   readingCur : s.pc = .reading → s.loc = .cur → s.swapped = false
   oldSwapped : s.loc = .old → s.swapped = true
@@ -135,7 +136,7 @@ structure CInv (s : CSt) : Prop where
 theorem cinv_init : CInv {} := by constructor <;> simp
 
 theorem cinv_step (s s' : CSt) (a : CAct) (h : CInv s) (hs : cstep s a = some s') : CInv s' := by
-  obtain ⟨h1, h2, h3, h4, h5, h6, h7, h8, h9⟩ := h
+  obtain ⟨h1, h2, h3, h3b, h4, h5, h6, h7, h8, h9⟩ := h
   cases a <;> simp only [cstep] at hs <;> (repeat' split at hs) <;> simp at hs <;> (try subst hs) <;>
     constructor <;> (first | (simp_all; done) | grind)
 
